@@ -149,7 +149,8 @@ pub fn kinds() -> Vec<Kind> {
     v.push(Kind { name: "toks", class: Class::Variable, setup: String::new(), targets: vec![toks("toks1", "\\toks1", "\\toksdef\\ta=1 ", Some("\\ta")), toks("toks2", "\\toks2", "", None)], nvals: NV });
     let cat = |name: &'static str, ch: &'static str| Target {
         name,
-        setup: String::new(),
+        // the starting value is pinned by an assignment outside all groups, not by texcraft's default table
+        setup: format!("\\catcode`\\{ch}=12 "),
         probe: format!("\\the\\catcode`\\{ch} "),
         initial: "12".into(),
         forms: vec![abs_form("set", move |i| format!("\\catcode`\\{ch}={} ", CATS[i % CATS.len()]), |i| CATS[i % CATS.len()].to_string())],
@@ -168,7 +169,7 @@ pub fn kinds() -> Vec<Kind> {
         name: "endlinechar",
         class: Class::Variable,
         setup: String::new(),
-        targets: vec![Target { name: "endlinechar", setup: String::new(), probe: "\\the\\endlinechar ".into(), initial: "13".into(), forms: vec![abs_form("set", |i| format!("\\endlinechar={} ", 65 + i), |i| (65 + i).to_string())] }],
+        targets: vec![Target { name: "endlinechar", setup: "\\endlinechar=13 ".into(), probe: "\\the\\endlinechar ".into(), initial: "13".into(), forms: vec![abs_form("set", |i| format!("\\endlinechar={} ", 65 + i), |i| (65 + i).to_string())] }],
         nvals: NV,
     });
     v.push(Kind { name: "time-singleton", class: Class::Variable, setup: String::new(), targets: vec![int_target("year", "\\year", 2000, "", None), int_target("month", "\\month", 1, "", None)], nvals: NV });
